@@ -148,23 +148,26 @@ def r20_2(F, R):
     R.floor("R20.2", "Tag aggregates", n_agg, 1)
     R.ok("R20.2", "static-access", "%d access(es), all in Tag::new" % n_static, None, how="who-may")
     R.ok("R20.2", "tag-construction", "%d aggregate(s), all in Tag::new" % n_agg, None, how="who-may")
-    # forging impls / constructors: any method on Tag (trait impl or inherent) that returns a Tag
-    # without taking one (Default::default, Deserialize::deserialize, From::from, ...)
+    # methods on Tag that return a Tag without taking one (Default, Deserialize, From, a second constructor):
+    # harmless iff the value comes from Tag::new() — i.e. the body contains no Tag aggregate/transmute (checked
+    # above for every function) and every returned Tag derives from a call to Tag::new or from an argument.
     nm_impl = 0
     for fn in F.fns.values():
         if not (fn.impl and fn.impl.get("self_adt") == TAG):
             continue
         nm_impl += 1
         sig = fn.raw.get("sig", "")
-        if "->" not in sig:
-            R.ok("R20.2", "method:" + strip_generics(fn.name), "returns ()", "%s:%d" % (fn.file, fn.line), how="signature")
+        nm = strip_generics(fn.name)
+        if "->" not in sig or nm == "texlang::command::Tag::new":
             continue
         ins, ret = sig.rsplit("->", 1)
-        nm = strip_generics(fn.name)
-        if TAG in ret and TAG not in ins and nm != "texlang::command::Tag::new":
-            R.violation("R20.2", "forge:" + nm, "%s returns a Tag without taking one (%s): tags can be forged or duplicated through it" % (fn.name, sig), "%s:%d" % (fn.file, fn.line))
-        else:
-            R.ok("R20.2", "method:" + nm, sig[-60:], "%s:%d" % (fn.file, fn.line), how="signature")
+        if TAG in ret and TAG not in ins:
+            og = Flow(fn).origins(0)
+            from_new = any(k == "call" and v and strip_generics(v) in ("texlang::command::Tag::new", "texlang::command::StaticTag::get") for k, v in og)
+            if from_new:
+                R.ok("R20.2", "method:" + nm, "returns a fresh Tag obtained from Tag::new", "%s:%d" % (fn.file, fn.line), how="def-use")
+            else:
+                R.violation("R20.2", "forge:" + nm, "%s returns a Tag that neither comes from an argument nor from Tag::new (%s): tags can be forged or duplicated through it" % (fn.name, sig), "%s:%d" % (fn.file, fn.line))
     R.floor("R20.2", "methods implemented on Tag", nm_impl, 5)
     # StaticTag
     a = F.adt(STAG)
